@@ -42,6 +42,7 @@ def setup(ctx):
     ]
     ctx.require("monitor", "speak_first_calls", 18)
     ctx.require("monitor", "client_mode_calls", 80)
+    ctx.require("monitor", "imports_that_must_skip_conflicts", 8)
     ctx.require("monitor", "l3_calls", 400)
     ctx.require("monitor", "changed_cert_calls", 30)
     ctx.require("monitor", "tampered_cert_calls", 20)
@@ -437,13 +438,24 @@ def run_history(ctx, world, hist, tofu=True, label="exhaustive"):
                 f = os.path.join(tmp, "imp.toml")
                 with open(f, "wb") as fh:
                     tomli_w.dump({"hosts": {"k": {"hostname": key[0], "port": key[1], "fingerprint": fp, "first_seen": "2020-01-01T00:00:00+00:00", "last_seen": "2020-01-01T00:00:00+00:00"}}}, fh)
-                if len(op) > 3 and op[3] == "replace":
+                policy_ = op[3] if len(op) > 3 else "merge-accept"
+                if policy_ == "replace":
                     # replace mode: afterwards the store holds exactly what the file names
                     admin.import_toml(Path(f), merge=False, on_conflict=lambda *a: True)
                     model.clear()
+                    model[key] = fp
+                elif policy_ in ("merge-no-callback", "merge-reject"):
+                    # a conflicting entry is SKIPPED when nobody is asked (documented) or the answer is no: an existing
+                    # pin stays what it is; a host the store does not know yet is added
+                    if policy_ == "merge-no-callback":
+                        admin.import_toml(Path(f), merge=True)
+                    else:
+                        admin.import_toml(Path(f), merge=True, on_conflict=lambda *a: False)
+                    model.setdefault(key, fp)
+                    ctx.count("monitor", "imports_that_must_skip_conflicts")
                 else:
                     admin.import_toml(Path(f), merge=True, on_conflict=lambda *a: True)
-                model[key] = fp
+                    model[key] = fp
                 outcomes.append("imported")
             elif kind == "restore":
                 # export the store and import that very file again (replace or merge): every pin survives
@@ -485,6 +497,7 @@ ALPHABET = [
 EXTRA = [("get", "t4"), ("upload", "t3"), ("delete", "t3"), ("delete", "t2"), ("swap", "A", "ed"), ("swap", "A", "rsa"), ("swap", "B", "tver"), ("swap", "A", "ec1"), ("swap", "B", "ec1"), ("clear",),
          ("redirect", "t3", "t4"), ("upload", "t2"), ("import", "t1", "ec2"), ("revoke", "t3"), ("trust", "t3"),
          ("import-bad", "t1", "ec2", "merge"), ("import-bad", "t3", "rsa", "replace"),
+         ("import", "t1", "ec2", "merge-no-callback"), ("import", "t1", "ec2", "merge-reject"), ("import", "t3", "rsa", "merge-no-callback"),
          ("getctx", "t1"), ("getctx", "t3"), ("restore", "merge"), ("import", "t1", "ec1", "replace"), ("import", "t2", "rsa", "replace"),
          ("getfail", "t1", "garbage-header"), ("getfail", "t3", "unknown-charset"), ("getfail", "t2", "reset-mid-body"), ("getfail", "t3", "close-before-header")]
 
@@ -510,6 +523,12 @@ def run_l3(ctx):
                     continue
                 run_history(ctx, world, hist, tofu=True)
         ctx.count("exhaustive_scope", f"L3 over {len(ALPHABET)} operations: " + ("depth 3 (1/5 sample)" if ctx.quick() else "depth 3 exhaustive, depth 4 (1/3 sample)"))
+        if ctx.mine(5) or ctx.nshards == 1:
+            for pol in ("merge-no-callback", "merge-reject"):
+                for hist in ((("get", "t1"), ("import", "t1", "ec2", pol), ("swap", "A", "ec2"), ("get", "t1"), ("upload", "t1"), ("swap", "A", "ec1"), ("get", "t1")),
+                             (("trust", "t1"), ("import", "t1", "ec2", pol), ("swap", "A", "ec2"), ("delete", "t1"), ("get", "t1")),
+                             (("import", "t3", "ed", pol), ("get", "t3"), ("import", "t1", "ec2", pol), ("get", "t1"), ("import", "t1", "ec2", pol), ("swap", "A", "ec2"), ("get", "t1"))):
+                    run_history(ctx, world, hist, tofu=True, label="import-conflict-policy")
         if ctx.shard == 0 or ctx.nshards == 1:
             for hist in LOOKALIKE_HISTORIES:
                 for tofu_on in (True,):
